@@ -14,6 +14,10 @@ CHECKS = {
          "Explicit-state search over environment event histories on the real h2 relay: after a fixed opening every history of DATA (sizes 0..40000, padded or not, END_STREAM) / SETTINGS(INITIAL_WINDOW_SIZE, MAX_FRAME_SIZE) / WINDOW_UPDATE(stream or connection) events up to depth 3-5 is replayed on a fresh relay from receiver windows {0,2,default} in both directions, each event followed by run-to-quiescence; invariants I1 (never exceed stream/connection credit), I2 (max frame size), I3 (exact credit returned, padding included), I4 (no stranding at frame granularity) are evaluated in every reached ledger state; plus concurrent DATA/WINDOW_UPDATE scripts under schedule exploration.",
          "2 streams; alphabet sizes/increments; MAX_FRAME_SIZE only raised; no state deduplication (every history replayed).",
          "explicit-state search over event histories on the implementation (gosim) + schedule enumeration", "gosim", "DESIGN.md §7 C09"),
+ "C10": ("model_checking",
+         "The real h2.Config.Proxy runs between two frame-level endpoints (which close their side on EOF/error like real peers) over simnet under the gosim scheduler: 7 terminating events (client closes, server closes, write failure toward either side, malformed frame from either side, proxy shutdown) x 4 session states (idle, mid-stream, DATA blocked on a zero window with trailers queued, output channel full because the server stopped reading) + bad preface + dial error; every schedule with <=1 (quick) / <=2 (thorough) deviations; oracle at the first quiescent point with zero virtual time elapsed: Proxy returned, its upstream connection is closed, no thread spawned by the session is alive.",
+         "TLS replaced by the dial seam (no close_notify); a peer that stopped reading never closes.",
+         "stateless schedule/fault enumeration of the implementation (gosim)", "gosim", "DESIGN.md §7 C10"),
  "C17": ("model_checking",
          "All operation sequences up to length 6 (quick) / 7 (thorough) over a 9-operation alphabet are run on the real har.Logger and compared step by step with a list model; 2-3 thread scenarios on colliding ids are run under the gosim scheduler with every interleaving of the logger's lock operations enumerated and each recorded history checked for linearizability against the same model.",
          "Scheduling points are synchronisation operations only (lock/atomic/channel); ids {a,b,c}; bodiless request/response shapes.",
